@@ -119,6 +119,44 @@ theorem teardown_returns (cs : List Choice)
   · simp [State.emit]
   · next h => simp only [not_and] at h; exact h h1 h2
 
+/-- **errChan never blocks a copier**: whenever a copier is about to send its result the channel
+    (capacity 2 = number of senders) has a free slot, whatever the two results are — which is
+    why the model's send step is unconditional — and the send takes the copier on to its closes. -/
+theorem errchan_capacity_suffices (cs : List Choice) (d : Dir) (p : Param)
+    (h : ((run init cs).cop d).pc = .snd) :
+    (run init cs).errs.length < 2 ∧ ((stepCop (run init cs) d p).cop d).pc = .cl1 := by
+  have hC := ctl_run init cs ctl_init
+  constructor
+  · have hl := hC.len
+    have hs : ((run init cs).cop d).pc.sent = false := by rw [h]; rfl
+    have ite_le : ∀ (c : Prop) [Decidable c], (if c then 1 else 0 : Nat) ≤ 1 := by
+      intro c _; split <;> omega
+    cases d
+    · rw [hs] at hl
+      have := ite_le (((run init cs).cop .ba).pc.sent = true)
+      simp only [Bool.false_eq_true, ↓reduceIte] at hl
+      omega
+    · rw [hs] at hl
+      have := ite_le (((run init cs).cop .ab).pc.sent = true)
+      simp only [Bool.false_eq_true, ↓reduceIte] at hl
+      omega
+  · simp [stepCop, h, stepSnd, State.setCop]
+
+/-- … and so `copyLoop` returns once both copiers have ended, whatever their two results are:
+    both genuine errors, one of them the teardown's "closed", both nil. -/
+theorem returns_whatever_the_results (cs : List Choice)
+    (h1 : ((run init cs).cop .ab).pc = .done) (h2 : ((run init cs).cop .ba).pc = .done) :
+    (run init cs).errs.length = 2 ∧ (run init (cs ++ [.main])).ret ≠ none := by
+  have hC := ctl_run init cs ctl_init
+  exact ⟨by rw [hC.len, h1, h2]; rfl, teardown_returns cs h1 h2⟩
+
+/-- both sides fail with genuine errors, back to back: two results queued, the first returned -/
+example :
+    let s := run init [.finish .A .err, .finish .B .err, .cop .ab {}, .cop .ba {}, .cop .ab {}, .cop .ba {},
+      .cop .ab {}, .cop .ab {}, .cop .ab {}, .cop .ba {}, .cop .ba {}, .cop .ba {}, .main]
+    s.errs = [.rerr .A, .rerr .B] ∧ s.ret = some (.rerr .A) := by
+  decide
+
 /-- **teardown**: the four parts together. -/
 theorem teardown (cs : List Choice) :
     (∀ d, ((run init cs).cop d).pc = .done →
